@@ -150,6 +150,8 @@ RouteFee(t) == IF cfg[t].kind = "ibc" \/ mode = "noGroup" THEN 0 ELSE params.rou
 Funded(t)   == feeBal[t] >= params.base + RouteFee(t)
 \* the route delivers: a TSS route with encodable signal ids while the signing group can sign.
 \* "ibc" tunnels have no channel in this environment, "tssLong" tunnels have signal ids the TSS encoder refuses.
+\* mode "panic" = the route panics (fault injected at the verif hook in SendPacket): SendPacket must turn the panic
+\* into an error, i.e. the route failed like in any other failing mode (no packet, no fees, tunnel deactivated).
 RouteOK(t)  == cfg[t].kind = "tss" /\ mode = "ok"
 
 \* effects of one produced packet of tunnel t with content S (CreatePacket + SendPacket + latest-price update)
